@@ -17,6 +17,11 @@ the directive signatures and docstrings in src/pyramid/config/*.py.  Reading rul
 * category, discriminator, title, type name, the guards under which an introspectable / a key / a relation
   exists, which introspectables are handed to which `action(...)`, with which discriminator and `order=`.
 
+`entries` are the public directives a configuration statement calls to reach the body (taken from the Configurator
+API: `add_tween` → `_add_tween`, the three `add_*_predicate` → `_add_predicate`, `add_static_view` →
+`StaticURLInfo.add`, `add_cache_buster` → `StaticURLInfo.add_cache_buster`, otherwise the method itself); each must
+be an `@action_method`, because the outermost wrapper is what records the calling statement as `action_info`.
+
 `docCategory` is the category name introspector.rst documents for the introspectable (absent for the
 families the chapter does not list: predicates, view derivers, request extensions, execution policy,
 response factory, csrf storage policy, cache busters, accept view order).  It differs from the category in
@@ -34,6 +39,7 @@ namespace Pyr.Introspect
 
 def specDirectives : List SDirective := [
   { file := "adapters.py", name := "add_subscriber",
+    entries := ["AdaptersConfiguratorMixin.add_subscriber"],
     docCategory := [("intr", "subscribers")],
     params := ["subscriber", "iface", "**predicates"],
     intros := [
@@ -56,6 +62,7 @@ def specDirectives : List SDirective := [
     acts := [
       ⟨"None", "", "", [], some [("intr", [])]⟩] },
   { file := "adapters.py", name := "add_response_adapter",
+    entries := ["AdaptersConfiguratorMixin.add_response_adapter"],
     docCategory := [("intr", "response adapters")],
     params := ["adapter", "type_or_iface"],
     intros := [
@@ -67,6 +74,7 @@ def specDirectives : List SDirective := [
     acts := [
       ⟨"discriminator", "", "", [], some [("intr", [])]⟩] },
   { file := "adapters.py", name := "add_traverser",
+    entries := ["AdaptersConfiguratorMixin.add_traverser"],
     docCategory := [("intr", "traversers")],
     params := ["adapter", "iface"],
     intros := [
@@ -78,6 +86,7 @@ def specDirectives : List SDirective := [
     acts := [
       ⟨"discriminator", "", "", [], some [("intr", [])]⟩] },
   { file := "adapters.py", name := "add_resource_url_adapter",
+    entries := ["AdaptersConfiguratorMixin.add_resource_url_adapter"],
     docCategory := [("intr", "resource url adapters")],
     params := ["adapter", "resource_iface"],
     intros := [
@@ -89,6 +98,7 @@ def specDirectives : List SDirective := [
     acts := [
       ⟨"discriminator", "", "", [], some [("intr", [])]⟩] },
   { file := "assets.py", name := "override_asset",
+    entries := ["AssetsConfiguratorMixin.override_asset"],
     docCategory := [("intr", "asset overrides")],
     params := ["to_override", "override_with", "_override"],
     intros := [
@@ -100,6 +110,7 @@ def specDirectives : List SDirective := [
     acts := [
       ⟨"None", "PHASE1_CONFIG", "", [], some [("intr", [])]⟩] },
   { file := "factories.py", name := "set_root_factory",
+    entries := ["FactoriesConfiguratorMixin.set_root_factory"],
     docCategory := [("intr", "root factories")],
     params := ["factory"],
     intros := [
@@ -111,6 +122,7 @@ def specDirectives : List SDirective := [
     acts := [
       ⟨"IRootFactory", "", "", [], some [("intr", [])]⟩] },
   { file := "factories.py", name := "set_session_factory",
+    entries := ["FactoriesConfiguratorMixin.set_session_factory"],
     docCategory := [("intr", "session factory")],
     params := ["factory"],
     intros := [
@@ -120,6 +132,7 @@ def specDirectives : List SDirective := [
     acts := [
       ⟨"ISessionFactory", "", "", [], some [("intr", [])]⟩] },
   { file := "factories.py", name := "set_request_factory",
+    entries := ["FactoriesConfiguratorMixin.set_request_factory"],
     docCategory := [("intr", "request factory")],
     params := ["factory"],
     intros := [
@@ -129,6 +142,7 @@ def specDirectives : List SDirective := [
     acts := [
       ⟨"IRequestFactory", "", "", [], some [("intr", [])]⟩] },
   { file := "factories.py", name := "set_response_factory",
+    entries := ["FactoriesConfiguratorMixin.set_response_factory"],
     params := ["factory"],
     intros := [
       { var := "intr", category := "'response factory'", discr := "None", title := "self.object_description(factory)", typeName := "'response factory'" }],
@@ -137,6 +151,7 @@ def specDirectives : List SDirective := [
     acts := [
       ⟨"IResponseFactory", "", "", [], some [("intr", [])]⟩] },
   { file := "factories.py", name := "add_request_method",
+    entries := ["FactoriesConfiguratorMixin.add_request_method"],
     params := ["callable", "name", "property", "reify"],
     intros := [
       { var := "intr", category := "'request extensions'", discr := "name", title := "self.object_description(callable)", typeName := "'request property'",
@@ -165,6 +180,7 @@ def specDirectives : List SDirective := [
       ⟨"('request extensions', name)", "", "", ["not (callable is None)", "property"], some [("intr", [])]⟩, 
       ⟨"('request extensions', name)", "", "", ["not (callable is None)", "not (property)"], some [("intr", [])]⟩] },
   { file := "factories.py", name := "set_execution_policy",
+    entries := ["FactoriesConfiguratorMixin.set_execution_policy"],
     params := ["policy"],
     intros := [
       { var := "intr", category := "'execution policy'", discr := "None", title := "self.object_description(policy)", typeName := "'execution policy'" }],
@@ -175,6 +191,7 @@ def specDirectives : List SDirective := [
     acts := [
       ⟨"IExecutionPolicy", "", "", [], some [("intr", [])]⟩] },
   { file := "i18n.py", name := "set_locale_negotiator",
+    entries := ["I18NConfiguratorMixin.set_locale_negotiator"],
     docCategory := [("intr", "locale negotiator")],
     params := ["negotiator"],
     intros := [
@@ -184,6 +201,7 @@ def specDirectives : List SDirective := [
     acts := [
       ⟨"ILocaleNegotiator", "", "", [], some [("intr", [])]⟩] },
   { file := "i18n.py", name := "add_translation_dirs",
+    entries := ["I18NConfiguratorMixin.add_translation_dirs"],
     docCategory := [("intr", "translation directories")],
     params := ["*specs", "**kw"],
     intros := [
@@ -203,6 +221,7 @@ def specDirectives : List SDirective := [
     acts := [
       ⟨"None", "", "", [], some [("intr", ["for spec in specs"])]⟩] },
   { file := "predicates.py", name := "_add_predicate",
+    entries := ["AdaptersConfiguratorMixin.add_subscriber_predicate", "RoutesConfiguratorMixin.add_route_predicate", "ViewsConfiguratorMixin.add_view_predicate"],
     params := ["type", "name", "factory", "weighs_more_than", "weighs_less_than"],
     intros := [
       { var := "intr", category := "'%s predicates' % type", discr := "discriminator", title := "f'{type} predicate named {name}'", typeName := "'%s predicate' % type",
@@ -215,6 +234,7 @@ def specDirectives : List SDirective := [
     acts := [
       ⟨"discriminator", "PHASE1_CONFIG", "", [], some [("intr", [])]⟩] },
   { file := "rendering.py", name := "add_renderer",
+    entries := ["RenderingConfiguratorMixin.add_renderer"],
     docCategory := [("intr", "renderer factories")],
     params := ["name", "factory"],
     intros := [
@@ -227,6 +247,7 @@ def specDirectives : List SDirective := [
     acts := [
       ⟨"(IRendererFactory, name)", "PHASE1_CONFIG", "", [], some [("intr", [])]⟩] },
   { file := "routes.py", name := "add_route",
+    entries := ["RoutesConfiguratorMixin.add_route"],
     docCategory := [("intr", "routes"), ("factory_intr", "root factories")],
     params := ["name", "pattern", "factory", "for_", "header", "xhr", "accept", "path_info", "request_method", "request_param", "traverse", "custom_predicates", "use_global_views", "path", "pregenerator", "static", "inherit_slash", "**predicates"],
     intros := [
@@ -274,6 +295,7 @@ def specDirectives : List SDirective := [
       ⟨"('route-connect', name)", "", "", [], some []⟩, 
       ⟨"('route', name)", "PHASE2_CONFIG", "", [], some [("intr", []), ("factory_intr", ["factory"])]⟩] },
   { file := "security.py", name := "set_security_policy",
+    entries := ["SecurityConfiguratorMixin.set_security_policy"],
     docCategory := [("intr", "security policy")],
     params := ["policy"],
     intros := [
@@ -283,6 +305,7 @@ def specDirectives : List SDirective := [
     acts := [
       ⟨"ISecurityPolicy", "PHASE2_CONFIG", "", [], some [("intr", [])]⟩] },
   { file := "security.py", name := "set_authentication_policy",
+    entries := ["SecurityConfiguratorMixin.set_authentication_policy"],
     docCategory := [("intr", "authentication policy")],
     params := ["policy"],
     intros := [
@@ -292,6 +315,7 @@ def specDirectives : List SDirective := [
     acts := [
       ⟨"IAuthenticationPolicy", "PHASE2_CONFIG", "", [], some [("intr", [])]⟩] },
   { file := "security.py", name := "set_authorization_policy",
+    entries := ["SecurityConfiguratorMixin.set_authorization_policy"],
     docCategory := [("intr", "authorization policy")],
     params := ["policy"],
     intros := [
@@ -302,6 +326,7 @@ def specDirectives : List SDirective := [
       ⟨"IAuthorizationPolicy", "PHASE1_CONFIG", "", [], some [("intr", [])]⟩, 
       ⟨"None", "", "", [], some []⟩] },
   { file := "security.py", name := "set_default_permission",
+    entries := ["SecurityConfiguratorMixin.set_default_permission"],
     docCategory := [("intr", "default permission"), ("perm_intr", "permissions")],
     params := ["permission"],
     intros := [
@@ -313,6 +338,7 @@ def specDirectives : List SDirective := [
     acts := [
       ⟨"IDefaultPermission", "PHASE1_CONFIG", "", [], some [("intr", []), ("perm_intr", [])]⟩] },
   { file := "security.py", name := "add_permission",
+    entries := ["SecurityConfiguratorMixin.add_permission"],
     docCategory := [("intr", "permissions")],
     params := ["permission_name"],
     intros := [
@@ -322,6 +348,7 @@ def specDirectives : List SDirective := [
     acts := [
       ⟨"None", "", "", [], some [("intr", [])]⟩] },
   { file := "security.py", name := "set_default_csrf_options",
+    entries := ["SecurityConfiguratorMixin.set_default_csrf_options"],
     docCategory := [("intr", "default csrf options")],
     params := ["require_csrf", "token", "header", "safe_methods", "check_origin", "allow_no_origin", "callback"],
     intros := [
@@ -337,6 +364,7 @@ def specDirectives : List SDirective := [
     acts := [
       ⟨"IDefaultCSRFOptions", "PHASE1_CONFIG", "", [], some [("intr", [])]⟩] },
   { file := "security.py", name := "set_csrf_storage_policy",
+    entries := ["SecurityConfiguratorMixin.set_csrf_storage_policy"],
     params := ["policy"],
     intros := [
       { var := "intr", category := "'csrf storage policy'", discr := "None", title := "policy", typeName := "'csrf storage policy'" }],
@@ -345,6 +373,8 @@ def specDirectives : List SDirective := [
     acts := [
       ⟨"ICSRFStoragePolicy", "", "", [], some [("intr", [])]⟩] },
   { file := "tweens.py", name := "_add_tween",
+    entries := ["TweensConfiguratorMixin.add_tween"],
+    internal := ["Configurator.setup_registry"],  -- explicit tweens named in the `pyramid.tweens` setting: not a statement
     docCategory := [("intr", "tweens")],
     params := ["tween_factory", "under", "over", "explicit"],
     intros := [
@@ -362,6 +392,7 @@ def specDirectives : List SDirective := [
     acts := [
       ⟨"discriminator", "", "", [], some [("intr", [])]⟩] },
   { file := "views.py", name := "add_view",
+    entries := ["ViewsConfiguratorMixin.add_view"],
     docCategory := [("view_intr", "views"), ("mapper_intr", "view mappers"), ("tmpl_intr", "templates"), ("perm_intr", "permissions")],
     params := ["view", "name", "for_", "permission", "request_type", "route_name", "request_method", "request_param", "containment", "attr", "renderer", "wrapper", "xhr", "accept", "header", "path_info", "custom_predicates", "context", "decorator", "mapper", "http_cache", "match_param", "require_csrf", "exception_only", "**view_options"],
     intros := [
@@ -425,6 +456,7 @@ def specDirectives : List SDirective := [
     acts := [
       ⟨"discriminator", "", "", [], some [("view_intr", []), ("mapper_intr", ["mapper"]), ("tmpl_intr", ["renderer is not None and renderer.name and ('.' in renderer.name)"]), ("perm_intr", ["permission is not None"])]⟩] },
   { file := "views.py", name := "add_accept_view_order",
+    entries := ["ViewsConfiguratorMixin.add_accept_view_order"],
     params := ["value", "weighs_more_than", "weighs_less_than"],
     intros := [
       { var := "intr", category := "'accept view order'", discr := "value", title := "value", typeName := "'accept view order'",
@@ -443,6 +475,7 @@ def specDirectives : List SDirective := [
     acts := [
       ⟨"discriminator", "PHASE1_CONFIG", "", [], some [("intr", [])]⟩] },
   { file := "views.py", name := "add_view_deriver",
+    entries := ["ViewsConfiguratorMixin.add_view_deriver"],
     params := ["deriver", "name", "under", "over"],
     intros := [
       { var := "intr", category := "'view derivers'", discr := "name", title := "name", typeName := "'view deriver'",
@@ -462,6 +495,7 @@ def specDirectives : List SDirective := [
     acts := [
       ⟨"discriminator", "PHASE1_CONFIG", "", [], some [("intr", [])]⟩] },
   { file := "views.py", name := "set_view_mapper",
+    entries := ["ViewsConfiguratorMixin.set_view_mapper"],
     docCategory := [("intr", "view mappers")],
     params := ["mapper"],
     intros := [
@@ -471,6 +505,7 @@ def specDirectives : List SDirective := [
     acts := [
       ⟨"IViewMapperFactory", "PHASE1_CONFIG", "", [], some [("intr", [])]⟩] },
   { file := "views.py", name := "add",
+    entries := ["ViewsConfiguratorMixin.add_static_view"],
     docCategory := [("intr", "static views")],
     params := ["config", "name", "spec", "**extra"],
     intros := [
@@ -486,6 +521,7 @@ def specDirectives : List SDirective := [
     acts := [
       ⟨"None", "", "", [], some [("intr", [])]⟩] },
   { file := "views.py", name := "add_cache_buster",
+    entries := ["ViewsConfiguratorMixin.add_cache_buster"],
     params := ["config", "spec", "cachebust", "explicit"],
     intros := [
       { var := "intr", category := "'cache busters'", discr := "spec", title := "'cache buster for %r' % spec", typeName := "'cache buster'",
